@@ -151,6 +151,24 @@ pub trait ErrorBounds: Round {
         -> (FBig<Self, B>, FBig<Self, B>, bool, bool);
 }
 
+/// Whether the magnitude of `f` is a power of the base. Such a float is stored with the significand
+/// one, because trailing zeros of the significand are moved into the exponent.
+#[inline]
+fn is_power_of_base<R: Round, const B: Word>(f: &FBig<R, B>) -> bool {
+    f.repr.significand.abs_cmp(&IBig::ONE).is_eq()
+}
+
+/// The width of the rounding interval of `f` on the side that faces zero, given its `width` on the
+/// other side: the floats below a power of the base are `B` times denser than those above it,
+/// so only a `B`-th of the width belongs to `f` there.
+#[inline]
+fn towards_zero<R: Round, const B: Word>(f: &FBig<R, B>, mut width: FBig<R, B>) -> FBig<R, B> {
+    if is_power_of_base(f) {
+        width.repr.exponent -= 1;
+    }
+    width
+}
+
 impl Round for mode::Zero {
     type Reverse = mode::Away;
 
@@ -224,8 +242,8 @@ impl ErrorBounds for mode::Away {
             (FBig::ZERO, FBig::ZERO, true, true)
         } else {
             match f.repr().sign() {
-                Sign::Positive => (f.ulp(), FBig::ZERO, false, true),
-                Sign::Negative => (FBig::ZERO, f.ulp(), true, false),
+                Sign::Positive => (towards_zero(f, f.ulp()), FBig::ZERO, false, true),
+                Sign::Negative => (FBig::ZERO, towards_zero(f, f.ulp()), true, false),
             }
         }
     }
@@ -257,7 +275,10 @@ impl ErrorBounds for mode::Down {
         if f.precision() == 0 {
             (FBig::ZERO, FBig::ZERO, true, true)
         } else {
-            (FBig::ZERO, f.ulp(), true, false)
+            match f.repr().sign() {
+                Sign::Positive => (FBig::ZERO, f.ulp(), true, false),
+                Sign::Negative => (FBig::ZERO, towards_zero(f, f.ulp()), true, false),
+            }
         }
     }
 }
@@ -288,7 +309,10 @@ impl ErrorBounds for mode::Up {
         if f.precision() == 0 {
             (FBig::ZERO, FBig::ZERO, true, true)
         } else {
-            (f.ulp(), FBig::ZERO, false, true)
+            match f.repr().sign() {
+                Sign::Positive => (towards_zero(f, f.ulp()), FBig::ZERO, false, true),
+                Sign::Negative => (f.ulp(), FBig::ZERO, false, true),
+            }
         }
     }
 }
@@ -341,14 +365,13 @@ impl ErrorBounds for mode::HalfAway {
         half_ulp.repr.exponent -= 1;
         half_ulp.repr.significand = UBig::from_word((B + 1) / 2).into(); // ceil division
 
-        let (incl_l, incl_r) = if f.repr.is_zero() {
-            (false, false)
+        if f.repr.is_zero() {
+            (half_ulp.clone(), half_ulp, false, false)
         } else if f.repr.sign() == Sign::Negative {
-            (false, true)
+            (half_ulp.clone(), towards_zero(f, half_ulp), false, true)
         } else {
-            (true, false)
-        };
-        (half_ulp.clone(), half_ulp, incl_l, incl_r)
+            (towards_zero(f, half_ulp.clone()), half_ulp, true, false)
+        }
     }
 }
 
@@ -404,7 +427,17 @@ impl ErrorBounds for mode::HalfEven {
         // a tie is rounded to the float whose significand of full precision is even: that is
         // the stored (normalized) significand padded with `precision - digits` zero digits
         let incl = !f.repr.significand.bit(0) || (B % 2 == 0 && f.repr.digits() < f.precision());
-        (half_ulp.clone(), half_ulp, incl, incl)
+        // the tie on the side of zero lies between the largest significand of full precision
+        // (B^precision - 1) and B^precision when f is a power of the base: `incl` otherwise
+        let incl_zero = if is_power_of_base(f) {
+            B % 2 == 0
+        } else {
+            incl
+        };
+        match f.repr.sign() {
+            Sign::Positive => (towards_zero(f, half_ulp.clone()), half_ulp, incl_zero, incl),
+            Sign::Negative => (half_ulp.clone(), towards_zero(f, half_ulp), incl, incl_zero),
+        }
     }
 }
 
